@@ -1,19 +1,24 @@
 TECHNIQUE = 'bounded symbolic execution of LLVM IR lowered to C: CBMC/SAT (cadical), sequential engine, real ThreadPool + task sets with virtual workers (task-granularity interleaving)'
-ASSUMPTIONS = ['moodycamel::ConcurrentQueue replaced by its contract model (shim/moodycamel)']
-OUTSIDE = ''
+ASSUMPTIONS = [
+    'dispenso::ThreadPool replaced by its contract model harness/C04/shim/dispenso/thread_pool.h (inline-or-queue decisions '
+    'of the pool arbitrary; ForceQueuingTag queues unless the pool has 0 threads; tryExecuteNext* run one queued task; '
+    'FIFO per source; <= VF_PQ_CAP queued tasks per run); the real task_set.h / detail/task_set_impl.h / task_set.cpp are '
+    'compiled unchanged against it',
+    'moodycamel::ProducerToken from the contract shim (identifies the producer only)',
+    'wait()/tryWait()/schedule callers are serial (documented contract); cancel() precedes the call under test',
+]
+OUTSIDE = ('task-granularity interleaving only: cancel() racing *inside* a scheduling call or inside a task wrapper (between its '
+           'canceled_ load and the body) is outside; real ThreadPool internals (rings, steal rings, wake protocol) are abstracted by '
+           'the contract pool; cancellation caused by a captured exception (trySetCurrentException) is exercised under C05; '
+           'cascade depth 1; bulk counts <= 3; futures/continuations bound to the set are outside')
+
+import os
+_HERE = os.path.dirname(os.path.abspath(__file__))
 
 _POOL = {
-    'engine': 'cbmc', 'shims': ['moodycamel'],
-    'repo_sources': ['dispenso/thread_pool.cpp', 'dispenso/thread_pool_wake.cpp',
-                     'dispenso/detail/per_thread_info.cpp', 'dispenso/task_set.cpp'],
-    'rt_defs': {'VF_HAVE_THREAD_MODEL': 1}, 'models': ['aligned_alloc'],
-    'allow_externals': ['_ZN8dispenso6detail27registerFineSchedulerQuantaEv'],
-    'cflags': ['-DDISPENSO_TUNE_STEAL_RING_SHARING=1', '-DDISPENSO_DISABLE_CASCADE_WAKERANGE'],
-    'unwind': 3, 'spin_loops': True, 'timeout': 400,
-    'unwindset': {
-        '_ZN8dispenso21ConcurrentObjectArenaINS_14MpmcRingBufferINS_12OnceFunctionELm16ELb1EEEmLm64EE7grow_byEm.4': 17,
-        '_ZN8dispenso21ConcurrentObjectArenaINS_14MpmcRingBufferINS_12OnceFunctionELm4ELb1EEEmLm64EE7grow_byEm.4': 5,
-    },
+    'engine': 'cbmc', 'shims': ['moodycamel', '../harness/C04/shim'],
+    'repo_sources': ['dispenso/detail/per_thread_info.cpp', 'dispenso/task_set.cpp'],
+    'unwind': 4, 'spin_loops': True, 'timeout': 400,
 }
 
 
@@ -24,8 +29,49 @@ def inst(name, src, defs, bounds, tiers=('quick', 'thorough'), **kw):
     return d
 
 
+_U2 = {'unwind': 2, 'unwindset': {'_ZN8dispenso10ThreadPool11popMatchingEjjb.0': 3, '_ZN8dispenso10ThreadPoolC2Emm.0': 3}}
+_U4 = {'unwind': 4, 'unwindset': {'_ZN8dispenso10ThreadPool11popMatchingEjjb.0': 5, '_ZN8dispenso10ThreadPoolC2Emm.0': 5}}
+_OPN = {0: 'schedule(f)', 1: 'schedule(f, ForceQueuingTag)', 2: 'scheduleBulk(n<=3, gen)', 3: 'scheduleBulk(n<=3, gen, ForceQueuingTag)'}
+_HOWN = {0: 'cancel()', 1: 'cascading parent cancelled before the child was constructed', 2: 'cancel() of the cascading parent'}
+_FINN = {0: 'wait() + destructor', 1: 'tryWait(k<=4) + destructor', 2: '<=2 virtual-worker steps, wait(), destructor'}
+
+
+def canc(setk, op, pool, cost=1, how=0, fin=0, tiers=('thorough',)):
+    name = '%s%s_op%d_p%d_h%d_f%d' % ('ts' if setk == 0 else 'cts', '' if setk == 0 else ('H' if cost else 'L'), op, pool, how, fin)
+    bulk = op >= 2
+    defs = {'VF_SET': setk, 'VF_OP': op, 'VF_POOL_N': pool, 'VF_COST': cost, 'VF_HOW': how, 'VF_FIN': fin,
+            'VF_MQ_CAP': 1, 'VF_PQ_CAP': 4 if bulk else 2}
+    b = ('%s%s on the contract pool with %d threads; set cancelled by %s; one call %s from a symbolic load pre-state '
+         '(load multiplier 1..4, 0..64 in-flight tasks of the set, 0..4096 other pool tasks pending, caller is/is not '
+         'a pool thread, inline depth 0..33%s); then %s; task-granularity interleaving (sequential engine, virtual workers)'
+         % ('TaskSet' if setk == 0 else 'ConcurrentTaskSet', '' if setk == 0 else (' kHeavy (placed route)' if cost else ' kLightweight'),
+            pool, _HOWN[how], _OPN[op],
+            '; skipRecheck and poolRecursiveLoadFactor in {1.0,1.5,3.0} symbolic' if (setk == 1 and op == 0) else '',
+            _FINN[fin]))
+    kw = dict(_U4 if bulk else _U2)
+    return inst(name, 'cancelled.cpp', defs, b, tiers=tiers, must_reach='all', **kw)
+
+
+def ordr(setk, pool, cost=1, how=0, tiers=('thorough',)):
+    name = 'ord_%s%s_p%d_h%d' % ('ts' if setk == 0 else 'cts', '' if setk == 0 else ('H' if cost else 'L'), pool, how)
+    defs = {'VF_SET': setk, 'VF_POOL_N': pool, 'VF_COST': cost, 'VF_HOW': how, 'VF_MQ_CAP': 1, 'VF_PQ_CAP': 2}
+    b = ('%s on the contract pool with %d threads: 1-2 force-queued tasks (single, two singles, bulk of 2), <=1 '
+         'virtual-worker step, then %s, <=2 worker steps, wait(), destructor; task-granularity interleaving'
+         % ('TaskSet' if setk == 0 else 'ConcurrentTaskSet', pool, _HOWN[how]))
+    return inst(name, 'ordered.cpp', defs, b, tiers=tiers, must_reach='all', unwind=3,
+                unwindset={'_ZN8dispenso10ThreadPool11popMatchingEjjb.0': 3, '_ZN8dispenso10ThreadPoolC2Emm.0': 3})
+
+
+_Q = ('quick', 'thorough')
 INSTANCES = [
-    inst('v0', 'probe_min2.cpp', {'VF_POOL_N': 1, 'VF_MQ_CAP': 4, 'VF_VAR': 0}, 'probe', timeout=3),
-    inst('v1', 'probe_min2.cpp', {'VF_POOL_N': 1, 'VF_MQ_CAP': 4, 'VF_VAR': 1}, 'probe', timeout=3),
-    inst('v2', 'probe_min2.cpp', {'VF_POOL_N': 1, 'VF_MQ_CAP': 4, 'VF_VAR': 2}, 'probe', timeout=3),
+    # quick tier: both set kinds, the inline-fallback entry points, bulk, cascade, ordering
+    canc(1, 0, 1, cost=1, tiers=_Q), canc(1, 0, 1, cost=0, tiers=_Q), canc(1, 2, 2, cost=1, tiers=_Q),
+    canc(0, 0, 1, tiers=_Q), canc(0, 2, 2, how=2, tiers=_Q), ordr(1, 1, tiers=_Q),
+    # thorough tier: remaining entry points / pool sizes / cancel causes / completion calls
+    canc(1, 0, 0, cost=1), canc(1, 0, 2, cost=0), canc(1, 0, 1, cost=1, how=1), canc(1, 0, 1, cost=0, how=2, fin=2),
+    canc(1, 1, 1, cost=1), canc(1, 1, 0, cost=0), canc(1, 1, 2, cost=1, fin=1),
+    canc(1, 2, 1, cost=0), canc(1, 2, 0, cost=1), canc(1, 3, 1, cost=1), canc(1, 3, 2, cost=0, how=2),
+    canc(0, 0, 0), canc(0, 0, 2, how=1, fin=2), canc(0, 1, 1), canc(0, 1, 0, fin=1), canc(0, 2, 1), canc(0, 2, 0),
+    canc(0, 3, 1), canc(0, 3, 2, how=1),
+    ordr(0, 1), ordr(0, 2, how=2), ordr(1, 2, cost=0, how=2),
 ]
